@@ -209,6 +209,13 @@ def targeted_text_cases():
                         ("left1", "right1", "k"), ("m1", "m2", "n"), ("u1", "u2", "v")]:
         out.append({"kind": "targeted", "tag": "update-from/bare-name-clash",
                     "case": {"sql": f"update tgt set c = {x}.d from {s1}.{x}, {s2}.{x}", "dialect": "postgres"}})
+    # an inner WITH that defines a CTE with the name of an outer one: the inner definition must win under every seed (D52, repaired)
+    for (a, t1, t2) in [("a", "t1", "t2"), ("cte", "src1", "src2"), ("w", "p", "q"), ("tmp", "left_t", "right_t"), ("x1", "y1", "z1"),
+                        ("recent", "orders", "orders_arch"), ("base", "m", "n"), ("c0", "d0", "e0")]:
+        for d in ("ansi", "non-validating"):
+            out.append({"kind": "targeted", "tag": "cte/shadow", "case": {
+                "sql": f"insert into tgt with {a} as (select x from {t1}) select x from (with {a} as (select x from {t2}) select x from {a}) s",
+                "dialect": d}})
     # tables that carry role TAGS (written by a statement that reads nothing, read by a statement that writes nothing, self loop)
     # next to ordinary lineage: the three role accessors are computed from shared per-tag sets
     for (a, b, c) in [("audit", "final", "src"), ("t1", "t2", "t3"), ("log", "dst", "feed")]:
